@@ -41,10 +41,12 @@ Mechs == <<
    inputs |-> <<"ep_headers", "issuer", "kid">>,
    shifts |-> <<"issuer|kid">>, hdr |-> TRUE, val |-> FALSE, hdrdef |-> 1],
   [m |-> "jwt_finalizer", policy |-> <<>>,
-   inputs |-> <<"signer_kid", "signer_name", "claims", "ttl", "subject_id", "subject_attr", "outputs">>,
+   inputs |-> <<"signer_kid", "signer_name", "claims", "ttl", "subject_id", "subject_attr", "outputs", "signer_first_key">>,
    shifts |-> <<"signer_kid|signer_name">>, hdr |-> FALSE, val |-> FALSE, hdrdef |-> 0],
+  (* scopes_late: the scopes are overridden by a variant created from the same prototype after the *)
+  (* prototype has been executed                                                                   *)
   [m |-> "cc_finalizer", policy |-> <<>>,
-   inputs |-> <<"client_id", "client_secret", "token_url", "scopes">>,
+   inputs |-> <<"client_id", "client_secret", "token_url", "scopes", "scopes_late">>,
    shifts |-> <<"client_id|client_secret", "token_url|scopes", "scopes.a|b">>, hdr |-> FALSE, val |-> TRUE, hdrdef |-> 0],
   [m |-> "cc_strategy", policy |-> <<>>,
    inputs |-> <<"client_id", "client_secret", "token_url", "scopes">>,
